@@ -154,9 +154,7 @@ class C11(Config):
         "can never equal an observed byte string",
         "harness/keysnt/src/bin/c11nt.rs and harness/keysns/src/bin/c11ns.rs (feature profiles without `transparent-inputs` / "
         "without `orchard`, each built with its own -p so that cargo does not unify the feature in) and the extra() hook of "
-        "vlib/props/c11.py that merges their cases into the verdict; c11ns reports the no-orchard profile in the main model's "
-        "vocabulary (a kept item with typecode 3 is shown as the Orchard receiver, identity decoder oracle) — that mapping is "
-        "harness code, the cfg(not(orchard)) arm has no separate Gallina transcription",
+        "vlib/props/c11.py that merges their cases into the verdict",
         "external cryptography treated as oracles: orchard 0.15, sapling-crypto 0.7, bip32, secp256k1, zip32, "
         "bech32 (Bech32m) and f4jumble (the harness inverts both layers with the primitive crates)",
     ]
